@@ -122,9 +122,12 @@ def _worker_run(case):
 def run_impl_all(mod, cases, procs):
     if not cases:
         return []
-    if procs <= 1 or len(cases) < 8 or getattr(mod, "SERIAL", False):
+    serial = getattr(mod, "SERIAL", False)
+    watchdog = bool(getattr(mod, "CASE_TIMEOUT", None)) and not serial
+    if serial or ((procs <= 1 or len(cases) < 8) and not watchdog):
         _worker_init(mod.__name__)
         return [_worker_run(c) for c in cases]
+    procs = max(1, min(procs, len(cases)))  # with a per-case watchdog even a handful of cases (shrinking, replay) runs in workers
     ctx = multiprocessing.get_context("fork")
     with ctx.Pool(procs, initializer=_worker_init, initargs=(mod.__name__,)) as pool:
         return pool.map(_worker_run, cases, chunksize=max(1, min(64, len(cases) // (procs * 4) or 1)))
